@@ -41,7 +41,7 @@ _TRUE = {
     "listdir": os.listdir, "scandir": os.scandir, "stat": os.stat, "lstat": os.lstat, "access": os.access, "remove": os.remove,
     "mkdir": os.mkdir, "open": builtins.open, "datetime": _datetime_mod.datetime, "date": _datetime_mod.date, "Popen": _subprocess_mod.Popen,
     "time": _time_mod.time, "localtime": _time_mod.localtime, "gmtime": _time_mod.gmtime, "strftime": _time_mod.strftime,
-    "which": shutil.which, "os_write": os.write, "isatty": os.isatty, "fsync": os.fsync, "getpid": os.getpid,
+    "readlink": os.readlink, "which": shutil.which, "os_write": os.write, "isatty": os.isatty, "fsync": os.fsync, "getpid": os.getpid,
 }
 
 DEFAULT_STEP_BUDGET = 2_000_000
@@ -51,6 +51,11 @@ DEFAULT_EVENT_CAP = 100_000
 BENIGN_GIT = ("ok", "empty", "exit128", "exit1", "signal")
 # ... and those it does not handle (it may fail loudly; it must not succeed with a bad header).
 UNHANDLED_GIT = ("enoent", "eacces", "badbytes")
+
+
+# In a symlink farm (cp -rs, GNU stow, Bazel's sandbox) every file of the tree is a symbolic link to
+# the real file kept elsewhere; the simulated farm keeps them under this virtual directory.
+FARM_PREFIX = ".farm-target/"
 
 
 class StepBudgetExceeded(BaseException):
@@ -291,6 +296,33 @@ class _FakeDirEntry:
 
     def stat(self, follow_symlinks=True):
         raise _oserror("ENOENT", self.path)
+
+    def __fspath__(self):
+        return self.path
+
+
+class _FarmDirEntry:
+    """A regular file of the real tree, presented as what it is in a symlink farm: a link to it."""
+
+    def __init__(self, real):
+        self._real = real
+        self.name = real.name
+        self.path = real.path
+
+    def is_symlink(self):
+        return True
+
+    def is_file(self, follow_symlinks=True):
+        return bool(follow_symlinks)
+
+    def is_dir(self, follow_symlinks=True):
+        return False
+
+    def inode(self):
+        return self._real.inode()
+
+    def stat(self, follow_symlinks=True):
+        return self._real.stat()
 
     def __fspath__(self):
         return self.path
@@ -675,7 +707,10 @@ class Sim:
             return None
         if ap == self.tool or ap == self.tool_norm:
             return None
-        return ap[len(self.repo) + 1:]
+        rel = ap[len(self.repo) + 1:]
+        if rel.startswith(FARM_PREFIX):
+            rel = rel[len(FARM_PREFIX):]  # where the symlinks of a symlink farm point to
+        return rel
 
     def fault_for(self, op, rel):
         for f in self.faults:
@@ -707,6 +742,38 @@ class Sim:
         elif os.path.lexists(top):
             out.append(os.path.relpath(top, self.cwd))
         return out
+
+    def realpath_of(self, path):
+        """The real file behind a path the tool uses (identical except for farm targets)."""
+        p = os.fspath(path)
+        if isinstance(p, bytes):
+            p = os.fsdecode(p)
+        ap = os.path.normpath(os.path.join(self.cwd, p))
+        marker = self.repo + os.sep + FARM_PREFIX
+        if ap.startswith(marker):
+            return self.repo + os.sep + ap[len(marker):], True
+        return path, False
+
+    def farm_link(self, path):
+        """In a symlink farm: is this project path (a regular file in reality) presented as a link?"""
+        if not self.plan["env"].get("symlink_farm"):
+            return False
+        rp, is_target = self.realpath_of(path)
+        if is_target:
+            return False
+        try:
+            import stat as _stat
+
+            return _stat.S_ISREG(self.real_lstat(rp).st_mode)
+        except OSError:
+            return False
+
+    def sim_readlink(self, path, *a, **kw):
+        rel = self.relproj(path) if not isinstance(path, int) else None
+        if rel is not None and self.farm_link(path):
+            self.log("readlink", file=rel)
+            return os.path.join(self.repo, FARM_PREFIX + rel)
+        return _TRUE["readlink"](path, *a, **kw)
 
     def touch(self, rel):
         """Count an access (stat or open) to a project path; returns its 0-based index."""
@@ -774,7 +841,7 @@ class Sim:
                 f["_delivered"] = True
                 self.deliver(f, target=rel, via="stat")
             raise _oserror("ENOENT", os.fspath(path))
-        return self.touched(rel, self.real_stat(path, *a, **kw))
+        return self.touched(rel, self.real_stat(self.realpath_of(path)[0], *a, **kw))
 
     def sim_lstat(self, path, *a, **kw):
         if isinstance(path, int) or kw.get("dir_fd") is not None:
@@ -798,7 +865,11 @@ class Sim:
                 f["_delivered"] = True
                 self.deliver(f, target=rel, via="lstat")
             raise _oserror("ENOENT", os.fspath(path))
-        return self.touched(rel, self.real_lstat(path, *a, **kw))
+        res = self.touched(rel, self.real_lstat(self.realpath_of(path)[0], *a, **kw))
+        if self.farm_link(path):
+            self.probe("symlink_farm_lstat")
+            return _SimStat(res, st_mode=0o120777, st_size=len(self.repo) + len(FARM_PREFIX) + len(rel) + 1)
+        return res
 
     def sim_access(self, path, mode, *a, **kw):
         if isinstance(path, int) or kw.get("dir_fd") is not None:
@@ -817,7 +888,7 @@ class Sim:
             return False
         if unreadable and (mode & os.R_OK):
             return False
-        return self.real_access(path, mode, *a, **kw)
+        return self.real_access(self.realpath_of(path)[0], mode, *a, **kw)
 
     # -- directory enumeration ------------------------------------------------------------------
     def ordered(self, rel, names):
@@ -891,7 +962,8 @@ class Sim:
             real = {e.name: e for e in it}
         order, extra = self.ordered(rel, self.with_overlay_entries(path, list(real)))
         self.log("scandir", dir=rel, n=len(order), digest=hashlib.sha256("\0".join(order).encode()).hexdigest()[:12])
-        ents = [real[n] if n in real else _FakeDirEntry(os.fspath(path), n, n.endswith(".d")) for n in order]
+        farm = bool(self.plan["env"].get("symlink_farm"))
+        ents = [(_FarmDirEntry(real[n]) if farm and real[n].is_file(follow_symlinks=False) else real[n]) if n in real else _FakeDirEntry(os.fspath(path), n, n.endswith(".d")) for n in order]
         return _ScandirResult(ents)
 
     # -- files ---------------------------------------------------------------------------------
@@ -939,7 +1011,7 @@ class Sim:
             # the same tree checked out with core.autocrlf=true: every line ends in \r\n on disk,
             # whichever way the file is opened (text mode translates it back, binary mode and
             # codecs.open do not)
-            with self.real_open(file, "rb") as bf:
+            with self.real_open(self.realpath_of(file)[0], "rb") as bf:
                 raw_bytes = bf.read().replace(b"\r\n", b"\n").replace(b"\n", b"\r\n")
             if "b" in mode:
                 real = io.BytesIO(raw_bytes)
@@ -948,7 +1020,7 @@ class Sim:
                 real = io.TextIOWrapper(io.BytesIO(raw_bytes), encoding=enc, errors=kw.get("errors"), newline=kw.get("newline"))
             self.probe("crlf_checkout")
         else:
-            real = self.real_open(file, mode, *a, **kw)
+            real = self.real_open(self.realpath_of(file)[0], mode, *a, **kw)
         return _CountingFile(self, rel, real, self.fault_for("read", rel))
 
     def abspath(self, path):
@@ -1158,6 +1230,7 @@ class Sim:
             "os_write": os.write,
             "which": shutil.which,
             "getpid": os.getpid,
+            "readlink": os.readlink,
             "isatty": os.isatty,
             "fsync": os.fsync,
         }
@@ -1222,6 +1295,13 @@ class Sim:
         tb_tail = ""
         argv = [self.tool_filename] + list(sel.get("argv") or argv_of(sel))
         self.log("start", argv=argv[1:], stdout_mode=mode, stdout_bufsize=self.bufsize)
+        # A simulated process is a fresh interpreter: module-level state of the standard library
+        # that a previous run in this worker may have left behind is put back to its initial value.
+        import random as _random_mod
+        import tempfile as _tempfile_mod
+
+        _tempfile_mod.tempdir = None  # tempfile.gettempdir() caches its probing
+        _random_mod.seed(0x5EED)  # the global PRNG is seeded from the OS at start-up
         try:
             os.chdir(self.repo)
             sys.argv = argv
@@ -1276,6 +1356,7 @@ class Sim:
 
             shutil.which = sim_which
             os.getpid = lambda: 4242  # process identity is not something a result may depend on
+            os.readlink = self.sim_readlink
             os.isatty = lambda fd: (mode == "line") if fd == 1 else _TRUE["isatty"](fd)
             os.fsync = lambda fd: None if fd == 1 else _TRUE["fsync"](fd)
             sys.settrace(self.tracer)
@@ -1329,6 +1410,7 @@ class Sim:
             os.write = saved["os_write"]
             shutil.which = saved["which"]
             os.getpid = saved["getpid"]
+            os.readlink = saved["readlink"]
             os.isatty = saved["isatty"]
             os.fsync = saved["fsync"]
             _datetime_mod.date = saved["date"]
